@@ -72,10 +72,16 @@ class Note(object):
         if isinstance(name, six.string_types):
             self.set_note(name, octave, dynamics)
         elif hasattr(name, "name"):
-            # Hardcopy Note object
-            self.set_note(name.name, name.octave, name.dynamics)
+            # Hardcopy Note object; velocity and channel given here win
+            copied = dict(name.dynamics)
+            copied.update(dynamics)
+            self.set_note(name.name, name.octave, copied)
         elif isinstance(name, int):
             self.from_int(name)
+            if "velocity" in dynamics:
+                self.set_velocity(dynamics["velocity"])
+            if "channel" in dynamics:
+                self.set_channel(dynamics["channel"])
         else:
             raise NoteFormatError("Don't know what to do with name object: %r" % name)
 
